@@ -12,10 +12,14 @@ line propagation made with ITS OWN baud rate and offset.
 import copy
 import math
 
+import warnings
+
 import numpy as np
 
 from common.util import Result, f2b, b2f, fl, err_kind
 from common import nets, nets_g
+
+warnings.filterwarnings('ignore', message='Polyfit may be poorly conditioned')
 
 ID = 'C13'
 N = {'quick': 900, 'thorough': 30000}
@@ -34,6 +38,8 @@ RULE = ('one PRNG; kinds: trx (25 %: random received spectra, 1-5 successive upd
         'contributions, penalty tables around the impairment values, inside and outside), loader (15 %: raw penalty '
         'lists unsorted / without zero / with non-positive boundaries), path (60 %: line networks of 2-3 ROADM sites '
         'with direction-asymmetric spans, generated transceiver with 1-8 modes incl. same-baud-different-offset groups, '
+        'fibres with dispersion slope / per-frequency dispersion and ROADMs with PDL/PMD differing between band halves, penalty '
+        'tables steep across or ending inside the per-channel impairment range of the path (some channels outside the table), '
         'thresholds calibrated to within +-0.02 dB .. +-3 dB of the own metric, fixed or automatic mode, '
         'bidirectional or not; ~12 % malformed requests). Non-trivial: trx always; loader when the list needs sorting '
         'or the zero point; path when a verdict was produced (served or blocked by mode) - distinct = canonical JSON')
@@ -162,8 +168,15 @@ def gen_path(rng, tier, widen=False):
             'margin': rng.choice([0, 1, 2, 2, 2.5, 3]), 'modes': modes,
             'roadm': {'add_drop_osnr': rng.choice([30, 33, 38, 38, 45, 100]), 'pdl': rng.choice([0, 0.3, 0.5, 1.0]),
                       'pmd': rng.choice([0, 0, 3e-12])},
-            'roadm_nodes': [rng.choice([None, None, None, {'add_drop_osnr': rng.choice([28, 33, 36, 42])}, 'detailed'])
+            'roadm_nodes': [rng.choice([None, None, None, {'add_drop_osnr': rng.choice([28, 33, 36, 42])}, 'detailed', 'split', 'split'])
                             for _ in range(k)],
+            # per-channel impairments that differ a lot across the band: dispersion slope / per-frequency dispersion (CD), ROADMs
+            # whose PDL/PMD differ between the lower and the upper half of the band ('split')
+            'fiber': rng.choice([None, {'dispersion': 1.67e-5, 'dispersion_slope': rng.choice([60.0, 400.0, 900.0, -500.0])},
+                                 {'dispersion': 1.67e-5, 'dispersion_slope': rng.choice([400.0, 900.0])},
+                                 {'dispersion_per_frequency': {'value': rng.choice([[0.9e-5, 1.4e-5, 2.0e-5, 2.6e-5], [2.4e-5, 2.0e-5, 1.5e-5, 1.1e-5]]),
+                                                               'frequency': [191.0e12, 192.0e12, 193.0e12, 194.0e12]}}]),
+            'split_pdl': [rng.choice([0.0, 0.2]), rng.choice([0.8, 1.5, 2.5])], 'split_pmd': [0.0, rng.choice([0.0, 4e-12])],
             'mode': None if auto else modes[0]['format'], 'bidir': rng.random() < 0.4,
             'power': rng.choice([None, None, 1e-3, 2e-3, 5e-4]), 'malformed': None}
     # thresholds: calibrated on each mode's own metric (absolute numbers are stored in the case)
@@ -194,6 +207,30 @@ def _calibrate(rng, case, widen):
     try:
         ctx = _build(case)
         path0 = _route(ctx, case)
+        # per-channel impairment ranges at the receiver; tables that are steep across, or END inside, that range
+        m0 = case['modes'][0]
+        rx0 = _prop(ctx, case, path0, m0['baud_rate'], 0.0, m0['tx_osnr'])['rx']
+        spans = {'chromatic_dispersion': (float(min(rx0.chromatic_dispersion)), float(max(rx0.chromatic_dispersion))),
+                 'pmd': (float(min(rx0.pmd)), float(max(rx0.pmd))), 'pdl': (float(min(rx0.pdl)), float(max(rx0.pdl)))}
+        changed = False
+        for m in case['modes']:
+            for imp, (lo, hi) in spans.items():
+                if hi - lo > 1e-3 * max(abs(hi), 1e-9) and lo > 0 and rng.random() < 0.5:
+                    shape = rng.choice(['steep', 'steep', 'ends_inside', 'starts_inside'])
+                    if shape == 'steep':
+                        tab = [[round(lo * 0.5, 6), 0.0], [round(lo, 6), 0.1], [round(hi, 6), rng.choice([1.5, 3.0, 5.0])],
+                               [round(hi * 2, 6), 6.0]]
+                    elif shape == 'ends_inside':
+                        tab = [[round(lo * 0.5, 6), 0.0], [round(lo + rng.choice([0.2, 0.5, 0.8]) * (hi - lo), 6), rng.choice([0.5, 1.0])]]
+                    else:
+                        tab = [[round(lo + rng.choice([0.2, 0.5]) * (hi - lo), 6), 0.2], [round(hi * 2, 6), 1.0], [-1.0, 0.0]][:2]
+                        tab.append([round(hi * 3, 6), 2.0])
+                    rng.shuffle(tab)
+                    m['penalties'][imp] = tab
+                    changed = True
+        if changed:
+            ctx = _build(case)
+            path0 = _route(ctx, case)
         for m in case['modes']:
             fig = _own_figures(ctx, case, path0, m)
             metric = fig['min']
@@ -229,6 +266,26 @@ def _mode_json(m):
     return d
 
 
+SPLIT_OSNR = 40
+
+
+def _split_roadm(case):
+    """library ROADM whose add/drop/express impairments differ between the lower and the upper half of the request band"""
+    mid = (case['band'][0] + case['band'][1]) / 2 + 1e9
+    pdl, pmd = case.get('split_pdl', [0.0, 1.5]), case.get('split_pmd', [0.0, 0.0])
+
+    def ranges(extra):
+        return [dict({'frequency-range': {'lower-frequency': lo, 'upper-frequency': hi}, 'roadm-pmd': pmd[i], 'roadm-cd': 0,
+                      'roadm-pdl': pdl[i], 'roadm-inband-crosstalk': 0}, **extra)
+                for i, (lo, hi) in enumerate(((186e12, mid), (mid, 198e12)))]
+    return {'type_variety': 'gsplit', 'target_pch_out_db': -20, 'add_drop_osnr': 38, 'pmd': 0, 'pdl': 0,
+            'restrictions': {'preamp_variety_list': [], 'booster_variety_list': []},
+            'roadm-path-impairments': [
+                {'roadm-path-impairments-id': 0, 'roadm-express-path': ranges({'roadm-maxloss': 0})},
+                {'roadm-path-impairments-id': 1, 'roadm-add-path': ranges({'roadm-maxloss': 0, 'roadm-osnr': SPLIT_OSNR})},
+                {'roadm-path-impairments-id': 2, 'roadm-drop-path': ranges({'roadm-maxloss': 0, 'roadm-osnr': SPLIT_OSNR})}]}
+
+
 def _build(case, equalise_offsets=False):
     modes = copy.deepcopy(case['modes'])
     if equalise_offsets:
@@ -237,12 +294,15 @@ def _build(case, equalise_offsets=False):
     trx = [{'type_variety': 'T', 'frequency': {'min': case['band'][0], 'max': case['band'][1]},
             'mode': [_mode_json(m) for m in modes]}]
     doc = nets_g.library_doc(trx, margin=case['margin'], roadm=case['roadm'])
+    doc['Roadm'].append(_split_roadm(case))
     eq = nets_g.build_equipment(doc)
-    topo = nets_g.line_topo(case['fwd'], case['rev'],
+    topo = nets_g.line_topo(case['fwd'], case['rev'], fiber_extra=case.get('fiber'),
                             roadm_params={i: v for i, v in enumerate(case.get('roadm_nodes') or []) if isinstance(v, dict)})
     for i, v in enumerate(case.get('roadm_nodes') or []):
         if v == 'detailed':
             next(e for e in topo['elements'] if e['uid'] == f'roadm N{i}')['type_variety'] = 'detailed_impairments'
+        if v == 'split':
+            next(e for e in topo['elements'] if e['uid'] == f'roadm N{i}')['type_variety'] = 'gsplit'
     net = nets_g.build_network(topo, eq)
     from gnpy.topology.spectrum_assignment import build_oms_list
     build_oms_list(net, eq)
@@ -315,6 +375,8 @@ def _adddrop(case, path, doc=None):
     def stage(r, kind):
         i = int(r.uid.split('N')[-1])
         v = nodes[i] if i < len(nodes) else None
+        if v == 'split':
+            return SPLIT_OSNR
         if v == 'detailed':
             lib = next(x for x in (doc or nets.eqpt_json())['Roadm'] if x.get('type_variety') == 'detailed_impairments')
             imp = next(x[f'roadm-{kind}-path'] for x in lib['roadm-path-impairments'] if f'roadm-{kind}-path' in x)
@@ -596,6 +658,8 @@ def run_path(case, drv):
     from gnpy.core.elements import Roadm
     n_roadm = sum(1 for e in path0 if isinstance(e, Roadm))
     res.stats.update({f'path_roadms_{n_roadm}': 1, 'path_bidir': int(case['bidir']),
+                      'path_fibre_dispersion_slope_or_per_frequency': int(bool(case.get('fiber'))),
+                      'path_split_impairment_roadm': int('split' in (case.get('roadm_nodes') or [])),
                       f'path_{"auto" if case["mode"] is None else "fixed"}': 1})
 
     def reverse_check(m, fwd_blocked):
@@ -664,7 +728,12 @@ def run_path(case, drv):
         if rq.tsp_mode != m['format']:
             res.fail(f'fixed-mode verdict: request mode changed from {m["format"]} to {rq.tsp_mode}')
         res.nontrivial = True
-        res.stats.update({f'fixed_{reason or "served"}': 1, 'fixed_penalty_inf': int(math.isinf(ev['min']))})
+        met = [g - q for g, q in zip(ev['snr01'], ev['pen'])]
+        res.stats.update({f'fixed_{reason or "served"}': 1, 'fixed_penalty_inf': int(math.isinf(ev['min'])),
+                          'fixed_worst_channel_is_not_lowest_gsnr_channel': int(met.index(min(met)) != ev['snr01'].index(min(ev['snr01']))),
+                          'fixed_penalty_differs_across_channels': int(max(ev['pen']) - min(ev['pen']) > 0.05 or
+                                                                        (math.isinf(max(ev['pen'])) and not math.isinf(min(ev['pen'])))),
+                          'fixed_some_channels_outside_table': int(math.isinf(max(ev['pen'])) and not math.isinf(min(ev['pen'])))})
         return res
 
     # ===================== automatic mode selection ===========================================================================
